@@ -295,3 +295,36 @@ def check_snapshot(run: Run, ctx, m, cls) -> None:
             ok_g = True
     run.check(ok_g, "C04.R3", gc, gc.node, "the snapshot's globals are completed with all of f.__globals__", "the closure snapshot is not completed with *all* module globals of the callable (inspect.getclosurevars only reports names used directly by f): a global referenced only inside a nested lambda, at any depth, is neither frozen nor checked", "cv.globals.update(f.__globals__)")
 
+
+
+def check_comprehension_shadow(run: Run, ctx: TermCtx, m, cls: ClassInfo, rule: str) -> None:
+    """A substituting transformer (one whose visit_Name can replace a name) must treat the loop variables of the four
+    comprehension forms as binders: a frame holding every Name of every generator target is pushed, the element
+    (and conditions) are visited under it, and it is popped on every path."""
+    from ..lib import call_events, event_after, event_before
+
+    handlers = {}
+    for k in COMP_KINDS:
+        name = f"visit_{k}"
+        if name in cls.methods:
+            handlers[k] = cls.methods[name]
+        elif name in cls.class_assigns and isinstance(cls.class_assigns[name], ast.Name) and cls.class_assigns[name].id in cls.methods:
+            handlers[k] = cls.methods[cls.class_assigns[name].id]
+    anchor = cls.methods.get("visit_Name") or next(iter(cls.methods.values()))
+    for k in COMP_KINDS:
+        run.check(k in handlers, rule, anchor, cls.node, f"{k} loop variables are treated as binders", f"{cls.name} has no handler for {k}: the loop variable of such a comprehension is replaced by a pending substitution of the same name (its Store-context target becomes an expression), and uses of the loop variable in the element refer to the substituted value instead of the loop's", "push a frame with the target names around the visit of the comprehension")
+    for h in {id(v): v for v in handlers.values()}.values():
+        nodep = ("param", h.pos_params[1])
+        evs = call_events(ctx, h, lambda n: n in ("append", "pop", "visit", "generic_visit"))
+        pushes = [e for e in evs if e.name == "append" and e.args]
+        pops = [e for e in evs if e.name == "pop"]
+        ok_t = False
+        for c in pushes:
+            t = c.args[0]
+            whole = contains(t, lambda s_: s_[0] == "app" and s_[1] == ("global", "ast.walk") and len(s_[2]) == 1 and s_[2][0][0] == "attr" and s_[2][0][2] == "target")
+            ok_t = ok_t or (contains(t, lambda s_: s_ == ("attr", nodep, "generators")) and whole and contains(t, lambda s_: s_[0] == "attr" and s_[2] == "id"))
+        run.check(ok_t, rule, h, h.node, "frame holds every Name inside every generator target (tuple targets included)", f"the frame pushed by {h.name} is not built from all Name nodes found by walking each generator's target", "[n.id for g in node.generators for n in ast.walk(g.target) if isinstance(n, ast.Name)]")
+        ok_p = len(pushes) == 1 and len(pops) == 1 and pushes[0].recv is not None and pushes[0].recv == pops[0].recv and event_after(ctx, h, pops[0], pushes[0])
+        body = [e for e in evs if (e.name == "generic_visit" and e.args and e.args[-1] == nodep) or (e.name == "visit" and e.args and e.args[0][0] == "attr" and e.args[0][1] == nodep and e.args[0][2] in ("elt", "key", "value"))]
+        ok_b = bool(body) and ok_p and all(event_before(ctx, h, pushes[0], e) and event_after(ctx, h, pops[0], e) for e in body)
+        run.check(ok_p and ok_b, rule, h, h.node, "the element is visited between the push and the pop of that frame, on every path", f"{h.name} does not visit the comprehension's element under a frame that is pushed before and popped after it: loop variables are substituted, or the frame leaks into the rest of the expression")
